@@ -23,32 +23,33 @@ import (
 )
 
 type cfgScn struct {
-	SID      string `json:"sid"`
-	DefProto string `json:"defProto"`
-	DefCodec string `json:"defCodec"`
-	DefComp  string `json:"defComp"`
-	SvcProto string `json:"svcProto"`
-	SvcCodec string `json:"svcCodec"`
-	SvcComp  string `json:"svcComp"`
-	Dup      bool   `json:"dup"`
-	Rule     string `json:"rule"`
-	Sel      string `json:"sel"`
-	Rule2    string `json:"rule2"`
-	Rule2First bool `json:"rule2first"`
+	SID        string `json:"sid"`
+	DefProto   string `json:"defProto"`
+	DefCodec   string `json:"defCodec"`
+	DefComp    string `json:"defComp"`
+	SvcProto   string `json:"svcProto"`
+	SvcCodec   string `json:"svcCodec"`
+	SvcComp    string `json:"svcComp"`
+	Dup        bool   `json:"dup"`
+	Rule       string `json:"rule"`
+	Sel        string `json:"sel"`
+	Rule2      string `json:"rule2"`
+	Rule2First bool   `json:"rule2first"`
 }
 
 type cfgObs struct {
-	SID       string `json:"sid"`
-	Ev        string `json:"ev"`
-	Cfg       cfgScn `json:"cfg"`
-	Accepted  bool   `json:"accepted"`
-	Err       string `json:"err"`
-	NilOnErr  bool   `json:"nilonerr"`  // a rejected configuration returned no transcoder
-	RuleProbe string `json:"ruleprobe"` // method reached through the rule's URL, or status:<n>, or "none"
-	RPCProto  string `json:"rpcproto"`  // protocol in which C.Get's backend is called for a Connect+JSON client
-	RPCCodec  string `json:"rpccodec"`
-	DProto    string `json:"dproto"` // same for D.Do (defaults only)
-	Panic     bool   `json:"panic"`
+	SID        string `json:"sid"`
+	Ev         string `json:"ev"`
+	Cfg        cfgScn `json:"cfg"`
+	Accepted   bool   `json:"accepted"`
+	Err        string `json:"err"`
+	NilOnErr   bool   `json:"nilonerr"`   // a rejected configuration returned no transcoder
+	RuleProbe  string `json:"ruleprobe"`  // method reached through the rule's URL, or status:<n>, or "none"
+	Rule2Probe string `json:"rule2probe"` // same for the second rule's binding
+	RPCProto   string `json:"rpcproto"`   // protocol in which C.Get's backend is called for a Connect+JSON client
+	RPCCodec   string `json:"rpccodec"`
+	DProto     string `json:"dproto"` // same for D.Do (defaults only)
+	Panic      bool   `json:"panic"`
 }
 
 var (
@@ -175,7 +176,7 @@ func init() {
 		if err := json.Unmarshal(raw, &scn); err != nil {
 			panic(err)
 		}
-		obs := cfgObs{SID: scn.SID, Ev: "config", Cfg: scn, RuleProbe: "none"}
+		obs := cfgObs{SID: scn.SID, Ev: "config", Cfg: scn, RuleProbe: "none", Rule2Probe: "none"}
 		svcC, svcD := cfgServices()
 		var lastPath atomic.Pointer[string]
 		var lastForm atomic.Pointer[[2]string]
@@ -222,6 +223,9 @@ func init() {
 					r2.Selector = "nosuch.v1.*"
 				case "good-on-D":
 					r2.Selector = "cfg.v1.D.Do"
+				case "dblstar-on-D":
+					r2.Selector = "cfg.v1.D.Do"
+					r2.Pattern = &annotations.HttpRule_Get{Get: "/cfg/{name=**}"}
 				}
 				if scn.Rule2First {
 					topts = append([]vanguard.TranscoderOption{vanguard.WithRules(r2)}, topts...)
@@ -271,6 +275,19 @@ func init() {
 					obs.RuleProbe = strings.TrimPrefix(strings.TrimPrefix(*p, "/cfg.v1.C/"), "/cfg.v1.D/")
 				} else {
 					obs.RuleProbe = "status:" + itoa(st)
+				}
+			}
+			if scn.Rule2 == "good-on-D" || scn.Rule2 == "dblstar-on-D" {
+				lastPath.Store(nil)
+				path2 := "/cfg/second"
+				if scn.Rule2 == "dblstar-on-D" {
+					path2 = "/cfg/deep/er"
+				}
+				st := do("GET", path2, "", "", nil)
+				if p := lastPath.Load(); p != nil {
+					obs.Rule2Probe = strings.TrimPrefix(strings.TrimPrefix(*p, "/cfg.v1.C/"), "/cfg.v1.D/")
+				} else {
+					obs.Rule2Probe = "status:" + itoa(st)
 				}
 			}
 			lastForm.Store(nil)
